@@ -244,7 +244,7 @@ theorem strtoulDigits_ok (b : Buf) {i : Nat} (h : b.HasNul i) (acc : Nat) :
 
 theorem strtoul_tail (b : Buf) {i e : Nat} (hi : b.HasNul i) (he : b.HasNul e) (k v : Nat) (neg : Bool) :
     ∃ v' e', (if (e == k) = true then (Except.ok (some 0, i) : M (Option Nat × Nat))
-      else if neg = true then .ok (if (v == 0) = true then some 0 else none, e)
+      else if neg = true then .ok (strtoulNeg v, e)
       else if v > 2147483647 then .ok (none, e) else .ok (some v, e)) = .ok (v', e') ∧ b.HasNul e' := by
   by_cases h1 : (e == k) = true
   · rw [if_pos h1]; exact ⟨_, _, rfl, hi⟩
